@@ -174,7 +174,7 @@ impl Twin {
             let mut ok = false;
             let mut refs = Vec::new();
             for pos in candidates {
-                let t = pos.as_secs_f32();
+                let t = pos.as_secs_f64() as f32;
                 if !(t < 1.0e6) {
                     ok = true;
                     break;
@@ -199,7 +199,7 @@ impl Twin {
     }
     fn eval(&self, into: &Target, pos: Duration) -> Target {
         let mut t = into.clone();
-        self.tl.update(&mut t, pos.as_secs_f32());
+        self.tl.update(&mut t, pos.as_secs_f64() as f32);
         t
     }
 }
@@ -363,8 +363,6 @@ fn execute(scn: &BScn, property: &str) -> RunOutcome {
     // never played; excluded from the Ended clauses until the next reset / re-target
     let mut stale_ended = false;
     let mut chain_present = true;
-    // position at which the main animator turned Ended (where its final evaluation happened)
-    let mut ended_at_position: Option<Duration> = None;
     // a key change made by the user that the selector has not acted on yet: (key, deadline)
     let mut awaiting_user_key: Option<(Key, usize)> = None;
     // an Ended event naming the main entity was sent in the previous frame
@@ -883,7 +881,7 @@ fn execute(scn: &BScn, property: &str) -> RunOutcome {
                     Rep::Infinite => f64::INFINITY,
                 };
                 let total = delay + l.spec.duration as f64 * cycles;
-                let pbs = pb.as_secs_f32() as f64;
+                let pbs = (pb.as_secs_f64() as f32) as f64;
                 if !band(pbs, delay) && !band(pbs, total) {
                     let want = if sb == AnimationState::Ended || pbs >= total {
                         AnimationState::Ended
@@ -899,7 +897,7 @@ fn execute(scn: &BScn, property: &str) -> RunOutcome {
                 if let (Some(_), Some(xa)) = (xb, xa) {
                     let eval = |p: Duration| {
                         let mut o = Other::default();
-                        tw.update(&mut o, p.as_secs_f32());
+                        tw.update(&mut o, p.as_secs_f64() as f32);
                         o.x
                     };
                     if sa == AnimationState::Playing && xa != eval(pb) && xa != eval(pa) {
@@ -1070,6 +1068,21 @@ fn execute(scn: &BScn, property: &str) -> RunOutcome {
                         if cfg.grid && pos_base_s == t {
                             out.count("probe.landed_exactly_on_end");
                         }
+                        // ... strictly so where "reached" is unambiguous: the total is itself an
+                        // f32 (no delay, no repetition: the longest cycle, at least 1/64 s so that
+                        // an f32 step is not finer than the nanosecond clock) and the position, as
+                        // the f32 nearest to it, is at or beyond it
+                        let m = spec.unwrap();
+                        let simple = !m.parts.is_empty() && m.parts.iter().all(|p| p.delay == 0.0 && p.repeat == Rep::None);
+                        if simple {
+                            let total32 = m.parts.iter().map(|p| p.duration).fold(0.0f32, f32::max);
+                            if total32 >= 1.0 / 64.0 && (pos_base.as_secs_f64() as f32) >= total32 {
+                                out.count("probe.position_reached_an_unambiguous_total");
+                                if after.state != AnimationState::Ended {
+                                    fail!("C18", "not-ended-one-frame-after-total", "frame {fi}: the position {pos_base:?} had reached the total duration {total32:?} before this frame (the f32 nearest to the position is at or beyond it), state is {:?}", after.state);
+                                }
+                            }
+                        }
                     }
                 }
                 if state_base != AnimationState::Ended && after.state == AnimationState::Ended {
@@ -1086,21 +1099,11 @@ fn execute(scn: &BScn, property: &str) -> RunOutcome {
                     // terminal values within float rounding of the evaluation time
                     // (oracle::band_tolerance), unless the timeline approaches its end through a
                     // (near-)discontinuity. Past the band, and on the grid, the usual tolerance.
-                    // (what counts is the position at which the animator ended, i.e. at which the
-                    // final evaluation happened - a later seek moves the position, not the values)
-                    if state_base != AnimationState::Ended {
-                        ended_at_position = Some(after.pos);
-                    }
-                    let evaluated_at_s = ended_at_position.unwrap_or(after.pos).as_secs_f64();
-                    let firmly = total.map(|t| (cfg.grid && t < 2_097_152.0) || evaluated_at_s > t + 1e-6 * t.abs().max(1e-3)).unwrap_or(false);
-                    let in_band = !firmly && total.is_some();
-                    if in_band {
-                        out.count("probe.ended_inside_rounding_band_of_end_instant");
-                    }
-                    let band_tol = oracle::band_tolerance(m);
-                    if firmly || band_tol.is_some() {
+                    // The animator's last evaluation is an evaluation of the end of the timeline, so
+                    // the terminal values are required to the usual tolerance wherever - relative to
+                    // the end instant - the animator decided that it had ended.
+                    {
                         let va = vals_of(&after.comp);
-                        let started_from = twin.as_ref().and_then(|t| t.start.clone()).unwrap_or_else(|| vals_of(&before.comp));
                         for prop in 0..4 {
                             if let Some(term) = oracle::merged_terminal(m, prop) {
                                 let actual = oracle::get_prop(&va, prop);
@@ -1108,12 +1111,7 @@ fn execute(scn: &BScn, property: &str) -> RunOutcome {
                                     PropVal::F(x) => x,
                                     _ => 0.0,
                                 };
-                                let close = if firmly {
-                                    oracle::prop_close(actual, term, oracle::float_scale(m, prop, extra), 8.0)
-                                } else {
-                                    oracle::close_within_band(m, prop, actual, term, oracle::get_prop(&started_from, prop), band_tol.unwrap_or(0.0))
-                                        || oracle::close_within_band(m, prop, actual, term, oracle::get_prop(&vals_of(&before.comp), prop), band_tol.unwrap_or(0.0))
-                                };
+                                let close = oracle::prop_close(actual, term, oracle::float_scale(m, prop, extra), 8.0);
                                 if !close {
                                     fail!("C18", "ended-without-terminal-values", "frame {fi}: animator reports Ended (position {:?}, total {:?}) but {} is {actual:?}; the timeline's terminal value is {term:?} (state before the frame: {state_base:?})", after.pos, total, PROP_NAMES[prop]);
                                 }
